@@ -2390,6 +2390,12 @@ class quantized_relu(base_quantizer.BaseQuantizer):  # pylint: disable=invalid-n
       flags.append(str(self.negative_slope))
     if self.use_stochastic_rounding:
       flags.append(str(int(self.use_stochastic_rounding)))
+    if self.relu_upper_bound is not None:
+      flags.append("relu_upper_bound=" + str(self.relu_upper_bound))
+    if not self.is_quantized_clip:
+      flags.append("is_quantized_clip=False")
+    if not self.use_ste:
+      flags.append("use_ste=False")
     return "quantized_relu(" + ",".join(flags) + ")"
 
   def __call__(self, x):
